@@ -97,6 +97,17 @@ fn alpha(cfg: &Cfg) -> Vec<Op> {
     ] {
         v.push(c(Decstbm(a, b)));
     }
+    // a C0 control is executed wherever it arrives - also inside a sequence that is already
+    // malformed (the rest of that sequence is swallowed)
+    v.push(Op::spelled(Lf, "\x1b[:\nm"));
+    v.push(Op::spelled(Bs, "\x1b[5?\x08m"));
+    v.push(Op::spelled(Cr, "\x1b[2 3\rm"));
+    v.push(Op::spelled(Ht, "\u{9b}:\tm"));
+    // ... and a command means what it says whatever was ignored before it
+    v.push(Op::spelled(Cud(None), "\u{9b}5?B\u{9b}B"));
+    v.push(Op::spelled(Cup(None, None), "\u{9b}2;2 3H\u{9b}H"));
+    v.push(Op::spelled(Cuf(None), "\x1b[3:4$~\u{9b}C"));
+    v.push(Op::spelled(Cha(Some(2)), "\u{9b}5?G\x18\u{9b}2G"));
     // parameters written with leading zeros: the value is what the digits say, however many
     v.push(Op::spelled(Cud(Some(2)), "\x1b[000002B"));
     v.push(Op::spelled(Cuf(Some(2)), "\x1b[0000000002C"));
